@@ -230,7 +230,17 @@ func drawSettings(t *rapid.T) drawn {
 		add(mk("port", "port", strconv.Itoa(httpPort), false))
 		add(mk("grpc_port", "grpc_port", strconv.Itoa(grpcPort), false))
 	}
-	switch pick(t, "profileStyle", "none", "none", "address", "deprecated", "off") {
+	switch pick(t, "profileStyle", "none", "none", "address", "deprecated", "off", "off+deprecated", "address+deprecated") {
+	case "off+deprecated":
+		// an explicit "none" next to the deprecated host/port pair
+		add(mk("profile_address", "profile_address", "none", true))
+		add(mk("profile_port", "profile_port", strconv.Itoa(rapid.IntRange(1024, 60000).Draw(t, "profPort")), false))
+		if rapid.Bool().Draw(t, "withProfHost") {
+			add(mk("profile_host", "profile_host", pick(t, "profHost", "127.0.0.1", "10.0.0.1", "localhost"), true))
+		}
+	case "address+deprecated":
+		add(mk("profile_address", "profile_address", pick(t, "profAddr", "127.0.0.1:6060", ":6061"), true))
+		add(mk("profile_port", "profile_port", strconv.Itoa(rapid.IntRange(1024, 60000).Draw(t, "profPort")), false))
 	case "address":
 		add(mk("profile_address", "profile_address", pick(t, "profAddr", "127.0.0.1:6060", ":6061", "unix:///tmp/p.sock"), true))
 	case "off":
